@@ -37,9 +37,20 @@ def limb_value(rng, p):
     return v
 
 
+def small_multiple_boundaries(p):
+    """values v for which a small multiple k*v (k = 2, 3, 4, 8: modular doubling, tripling, the 8*y^4 of point doubling) lands exactly on /
+    next to a multiple of p or of 2^256: floor(j*p/k) and floor(j*2^256/k) with neighbours"""
+    out = []
+    for k in (2, 3, 4, 8):
+        for j in range(1, k):
+            for base in (j * p // k, j * R // k):
+                out += [base - 1, base, base + 1]
+    return [v % p for v in out]
+
+
 def fixed_values(p):
     return [0, 1, 2, 3, p - 1, p - 2, (p - 1) // 2, (p + 1) // 2, 1 << 255, (1 << 255) - 1, R % p, (R - 1) % p, (-R) % p,
-            (R * R) % p, pow(R, -1, p), (1 << 64) - 1, 1 << 64, (1 << 128) - 1, 1 << 192, R - p, (R - p) - 1, (R - p) + 1]
+            (R * R) % p, pow(R, -1, p), (1 << 64) - 1, 1 << 64, (1 << 128) - 1, 1 << 192, R - p, (R - p) - 1, (R - p) + 1] + small_multiple_boundaries(p)
 
 
 def field_value(rng, p):
@@ -416,6 +427,10 @@ def lam_for(rng, which):
         return rng.randrange(2, q)
     if rng.random() < 0.5:
         return LAMBDAS2[rng.randrange(len(LAMBDAS2))]
+    if rng.random() < 0.15:
+        # norm one (conj(y)/y): the Fq inversion inside Fq2::inverse then sees exactly 1
+        y = (rng.randrange(1, q), rng.randrange(1, q))
+        return rm.f2mul((y[0], (-y[1]) % q), rm.f2inv(y))
     return (rng.randrange(q), rng.randrange(1, q))
 
 
